@@ -185,6 +185,8 @@ def main(argv=None):
     kf_lines = []
     active_kf = []
     for k in kfs:
+        if k.get('bounded'):
+            continue        # a finding of the bounded stage: matched by the failure it names (k['match']) when that stage reports it
         unit = C.LEMMAS.get(k['unit']) or C.REGISTRY.get(k['unit'])
         if unit is None:
             print("CHECKER-ERROR property=%s known finding %s names unknown unit %s" % (pid, k['id'], k['unit']))
@@ -329,6 +331,9 @@ def main(argv=None):
                         continue
                     seen_names.add(fail['name'])
                     kfid = fail.get('known_finding')
+                    for k in kfs:
+                        if k.get('bounded') and k.get('match') == fail['name']:
+                            kfid = k['id']
                     if kfid and any(k['id'] == kfid for k in kfs):
                         line = "KNOWN-FINDING: property=%s %s: %s" % (pid, kfid, [k for k in kfs if k['id'] == kfid][0]['what'])
                         if line not in kf_lines:
